@@ -89,3 +89,120 @@ Fixpoint den (p : pt) (e : qenv) : option Q :=
   | PConstr _ b => den b e       (* a violated constraint makes the code raise; an error is always acceptable *)
   | PSingle b => den b e         (* rendering a sub-template as one waveform must not change any duration *)
   end.
+
+(* ------------------------------------------------------------------------------------------------------------ *)
+(* Which inputs the property speaks about ("time-valued parameters are integers or short decimals": exact numbers).
+   A static kind analysis of the template, independent of the operational model: every expression gets the kind of number
+   it evaluates to, determined from the kinds of the parameters alone.  Binary floating point arithmetic is outside the
+   property: an expression in which a float (or a number of a rejected type) is an operand of an arithmetic operation,
+   or that divides something that is not a TimeType / by a literal that is not 2, 4, 8 (the literal 1/k is a float in the
+   lambdified expression), has kind NX.  A template is in scope iff no expression anywhere in it has kind NX.
+   Order of "badness": NT (TimeType) < NI (int) < NF (bare float / rejected type) < NX; Max of an int and a TimeType
+   may be either: counted as NI (the worse one: dividing an int is inexact). *)
+Inductive nkind := NT | NI | NF | NX.
+Definition kind_of (v : value) : nkind :=
+  match v with VInt _ => NI | VTime _ => NT | VFloat _ _ => NF | VBad _ => NF end.
+Definition karith (a b : nkind) : nkind :=
+  match a, b with
+  | NI, NI => NI
+  | NI, NT | NT, NI | NT, NT => NT
+  | _, _ => NX
+  end.
+Definition kmaxk (a b : nkind) : nkind :=
+  match a, b with
+  | NT, NT => NT
+  | NI, NI | NI, NT | NT, NI => NI
+  | _, _ => NX
+  end.
+Definition kdivk (a : nkind) (k : positive) : nkind :=
+  match a with
+  | NT => if (Pos.eqb k 2 || Pos.eqb k 4 || Pos.eqb k 8)%bool then NT else NX
+  | _ => NX
+  end.
+Definition kenv := list (ident * nkind).
+Fixpoint kexpr (ke : kenv) (x : expr) : nkind :=
+  match x with
+  | ELit v => kind_of v
+  | EVar y => match lookup ke y with Some k => k | None => NT end      (* a missing parameter: no duration at all *)
+  | EAdd a b | ESub a b | EMul a b => karith (kexpr ke a) (kexpr ke b)
+  | EDivK a k => kdivk (kexpr ke a) k
+  | EMax a b => kmaxk (kexpr ke a) (kexpr ke b)
+  end.
+Definition kok (k : nkind) : bool := match k with NX => false | _ => true end.
+Definition kx (ke : kenv) (x : expr) : bool := kok (kexpr ke x).
+
+(* `symbolic` = true: the duration EXPRESSION is analysed (the index of a for-loop is start + k*step, of the kind of
+   these expressions); false: the INSTANTIATION (create_program binds the index to a Python int) *)
+Fixpoint kscope (symbolic : bool) (ke : kenv) (p : pt) : bool :=
+  match p with
+  | PAtom _ _ d => kx ke d
+  | PTable chans => forallb (forallb (kx ke)) (map snd chans)
+  | PSeq subs => forallb (kscope symbolic ke) subs
+  | PRep c b => kx ke c && kscope symbolic ke b
+  | PFor i a b s body =>
+      kx ke a && kx ke b && kx ke s
+      && (let ki := if symbolic then karith (kexpr ke a) (karith NI (kexpr ke s)) else NI in
+          kok ki && kscope symbolic ((i, ki) :: ke) body)
+  | PMap m _ b => forallb (fun xe => kx ke (snd xe)) m
+                  && kscope symbolic (map (fun xe => (fst xe, kexpr ke (snd xe))) m ++ ke) b
+  | PMulti decl subs => match decl with Some d => kx ke d | None => true end && forallb (kscope symbolic ke) subs
+  | PArith l r => kscope symbolic ke l && kscope symbolic ke r
+  | PWrap b | PRev b | PSingle b => kscope symbolic ke b
+  | PConstr cs b => forallb (fun lr => kx ke (fst lr) && kx ke (snd lr)) cs && kscope symbolic ke b
+  end.
+
+(* the kind of the VALUE of the duration expression of a template (the classes add, multiply and take Max of the
+   durations of their parts); NX = binary float arithmetic would take part in composing it *)
+Fixpoint ksym (ke : kenv) (p : pt) : nkind :=
+  match p with
+  | PAtom _ _ d => kexpr ke d
+  | PTable chans =>
+      match map (fun ts => kexpr ke (last_expr ts)) (map snd chans) with
+      | [] => NX
+      | a :: t => fold_left kmaxk t a
+      end
+  | PSeq subs => fold_right (fun c s => karith (ksym ke c) s) NI subs
+  | PRep c b => karith (kexpr ke c) (ksym ke b)
+  | PFor i a b s body =>
+      let ki := karith (kexpr ke a) (karith NI (kexpr ke s)) in
+      match karith (ksym ((i, ki) :: ke) body) NI with NX => NX | _ => NI end     (* 0 for an empty range: an int *)
+  | PMap m _ b => ksym (map (fun xe => (fst xe, kexpr ke (snd xe))) m ++ ke) b
+  | PMulti decl subs =>
+      match decl with
+      | Some d => kexpr ke d
+      | None => match subs with c :: _ => ksym ke c | [] => NX end
+      end
+  | PArith l r => kmaxk (ksym ke l) (ksym ke r)
+  | PWrap b | PRev b | PSingle b => ksym ke b
+  | PConstr _ b => ksym ke b
+  end.
+
+(* a PARAMETER of a rejected type (fractions.Fraction, gmpy2.mpq) is never computed with: evaluation raises.  Its exact
+   value is what the specification reads, so such inputs stay in scope (an error is an acceptable answer) *)
+Definition kind_of_param (v : value) : nkind := match v with VBad _ => NT | _ => kind_of v end.
+Definition kenv_of (e : env) : kenv := map (fun xv => (fst xv, kind_of_param (snd xv))) e.
+(* the instantiation is exact: no binary float arithmetic can take part in create_program *)
+Definition scope_prog (p : pt) (e : env) : bool := kscope false (kenv_of e) p.
+(* the duration expression at the parameters as given (floats = their shortest decimal, a TimeType) is exact *)
+Definition scope_sym (p : pt) (e : env) : bool :=
+  kscope true (kenv_of (decimalize e)) p && kok (ksym (kenv_of (decimalize e)) p).
+
+(* A duration EXPRESSION has no value at all when it contains a for-loop whose step is zero at the given parameters (the
+   closed form divides by the step), even if that loop is never entered (body of an empty range / of a repetition with
+   count 0, where the template still denotes the duration 0).  Only then may the implementation report "no rational
+   value" for the symbolic duration of a template in scope.  Names bound inside (loop indices at their first value,
+   mapped names) get the value of their defining expression, 0 if it has none. *)
+Definition qval (qe : qenv) (x : expr) : Q := match qeval qe x with Some q => Qred q | None => 0 end.
+Fixpoint zero_step (qe : qenv) (p : pt) : bool :=
+  match p with
+  | PAtom _ _ _ | PTable _ => false
+  | PSeq subs => existsb (zero_step qe) subs
+  | PRep _ b => zero_step qe b
+  | PFor i a _ s body =>
+      match qeval qe s with Some q => Qeqb q 0 | None => true end || zero_step ((i, qval qe a) :: qe) body
+  | PMap m _ b => zero_step (map (fun xe => (fst xe, qval qe (snd xe))) m ++ qe) b
+  | PMulti _ subs => existsb (zero_step qe) subs
+  | PArith l r => zero_step qe l || zero_step qe r
+  | PWrap b | PRev b | PSingle b => zero_step qe b
+  | PConstr _ b => zero_step qe b
+  end.
